@@ -251,7 +251,8 @@ func newFwRun(c *h.Ctx, id string, r *rand.Rand, prop string) *fwRun {
 		o.CsCapacity = 2 + r.Intn(3)
 	}
 	if r.Intn(3) == 0 {
-		o.Regions = []string{"/region"}
+		// producer regions: one, two nested ones in either order, or two unrelated ones
+		o.Regions = [][]string{{"/region"}, {"/region/x", "/region"}, {"/region", "/region/x"}, {"/region/x", "/other"}}[r.Intn(4)]
 	}
 	fr.opts = o
 	fr.sim = fwsim.New(o)
@@ -331,6 +332,11 @@ func (fr *fwRun) run(p fwProfile) {
 		n, _ := enc.NameFromStr("/hint")
 		fr.doStep(&fwStep{Kind: "fib", FibOp: "insert", Name: n.String(), name: n, Face: 3 + uint64(r.Intn(2)), Cost: 1})
 	}
+	if len(fr.opts.Regions) > 0 && r.Intn(2) == 0 {
+		// a route that a hint under /region would select if the hint were (wrongly) used
+		n, _ := enc.NameFromStr("/region")
+		fr.doStep(&fwStep{Kind: "fib", FibOp: "insert", Name: n.String(), name: n, Face: 3 + uint64(r.Intn(2)), Cost: 1})
+	}
 	nSteps := 20 + r.Intn(35)
 	nonces := []uint32{11, 22, 33, 44, 55, 66}
 	for s := 0; s < nSteps && !fr.stop; s++ {
@@ -381,7 +387,7 @@ func (fr *fwRun) run(p fwProfile) {
 			}
 			st.Token = h.HexFull(st.token)
 			if r.Intn(8) == 0 {
-				hn, _ := enc.NameFromStr([]string{"/hint", "/region/x", "/hint/y"}[r.Intn(3)])
+				hn, _ := enc.NameFromStr([]string{"/hint", "/region/x", "/hint/y", "/region/z", "/region"}[r.Intn(5)])
 				st.hints = []enc.Name{hn}
 				if r.Intn(3) == 0 {
 					h2, _ := enc.NameFromStr("/region/z")
